@@ -75,7 +75,7 @@ namespace Repe.WD
 
 /-! ### stream algebra -/
 
-theorem stream_snoc (segs : List Seg) (s : Seg) :
+theorem stream_snoc (segs : List (Seg Message)) (s : Seg Message) :
     ((segs ++ [s]).map Seg.bytes).flatten = (segs.map Seg.bytes).flatten ++ s.bytes := by
   simp
 
@@ -88,7 +88,7 @@ theorem take_extend (l : Bytes) (off k : Nat) :
 
 /-! ### the invariant of a connection whose endpoint has both discipline facts -/
 
-structure Inv (c : Conn) : Prop where
+structure Inv (c : Conn Message) : Prop where
   curWf : ∀ w m off, c.cur w = some (m, off) → m.WF ∧ off < m.toVec.length
   doneWf : ∀ m ∈ c.done, m.WF
   idle : c.failed = false → ∀ w m off, c.cur w = some (m, off) → c.lock ≠ some w → off = 0
@@ -99,54 +99,54 @@ structure Inv (c : Conn) : Prop where
   shapeFailed : c.failed = true → ∃ (m : Message) (off : Nat), m.WF ∧ 0 < off ∧ off < m.toVec.length ∧
     c.stream = (c.done.map Message.toVec).flatten ++ m.toVec.take off
 
-theorem inv_init : Inv Conn.init := by
+theorem inv_init : Inv (Conn.init : Conn Message) := by
   refine ⟨?_, ?_, ?_, ?_, ?_, ?_⟩ <;> simp [Conn.init, Conn.stream]
 
 
 /-! ### equations of `step` -/
 
-theorem step_submit_some (f : Facts) (c : Conn) (w : Nat) (m : Message) (p) (h : c.cur w = some p) :
-    step f c (.submit w m) = c := by simp [step, h]
+theorem step_submit_some (f : Facts) (c : Conn Message) (w : Nat) (m : Message) (p) (h : c.cur w = some p) :
+    step mlen f c (.submit w m) = c := by simp [step, h]
 
-theorem step_submit_none (f : Facts) (c : Conn) (w : Nat) (m : Message) (h : c.cur w = none) :
-    step f c (.submit w m) = { c with cur := setCur c.cur w (some (m, 0)) } := by simp [step, h]
+theorem step_submit_none (f : Facts) (c : Conn Message) (w : Nat) (m : Message) (h : c.cur w = none) :
+    step mlen f c (.submit w m) = { c with cur := setCur c.cur w (some (m, 0)) } := by simp [step, h]
 
-theorem step_progress_none (f : Facts) (c : Conn) (w k : Nat) (h : c.cur w = none) :
-    step f c (.progress w k) = c := by simp [step, h]
+theorem step_progress_none (f : Facts) (c : Conn Message) (w k : Nat) (h : c.cur w = none) :
+    step mlen f c (.progress w k) = c := by simp [step, h]
 
-theorem step_progress_blocked (f : Facts) (c : Conn) (w k : Nat) (m : Message) (off : Nat)
+theorem step_progress_blocked (f : Facts) (c : Conn Message) (w k : Nat) (m : Message) (off : Nat)
     (h : c.cur w = some (m, off)) (hc : ¬ canWrite f c w = true) :
-    step f c (.progress w k) = c := by simp [step, h, hc]
+    step mlen f c (.progress w k) = c := by simp [step, h, hc]
 
-theorem step_progress_complete (f : Facts) (c : Conn) (w k : Nat) (m : Message) (off : Nat)
+theorem step_progress_complete (f : Facts) (c : Conn Message) (w k : Nat) (m : Message) (off : Nat)
     (h : c.cur w = some (m, off)) (hc : canWrite f c w = true)
     (hcomp : off + min k (m.toVec.length - off) = m.toVec.length) :
-    step f c (.progress w k) =
+    step mlen f c (.progress w k) =
       { c with segs := c.segs ++ [⟨m, off, min k (m.toVec.length - off)⟩], cur := setCur c.cur w none,
                lock := none, done := c.done ++ [m] } := by
   simp [step, h, hc, hcomp]
 
-theorem step_progress_partial (f : Facts) (c : Conn) (w k : Nat) (m : Message) (off : Nat)
+theorem step_progress_partial (f : Facts) (c : Conn Message) (w k : Nat) (m : Message) (off : Nat)
     (h : c.cur w = some (m, off)) (hc : canWrite f c w = true)
     (hcomp : ¬ off + min k (m.toVec.length - off) = m.toVec.length) :
-    step f c (.progress w k) =
+    step mlen f c (.progress w k) =
       { c with segs := c.segs ++ [⟨m, off, min k (m.toVec.length - off)⟩],
                cur := setCur c.cur w (some (m, off + min k (m.toVec.length - off))), lock := some w } := by
   simp [step, h, hc, hcomp]
 
-theorem step_interrupt_none (f : Facts) (c : Conn) (w : Nat) (h : c.cur w = none) :
-    step f c (.interrupt w) = c := by simp [step, h]
+theorem step_interrupt_none (f : Facts) (c : Conn Message) (w : Nat) (h : c.cur w = none) :
+    step mlen f c (.interrupt w) = c := by simp [step, h]
 
-theorem step_interrupt_some (f : Facts) (c : Conn) (w : Nat) (m : Message) (off : Nat)
+theorem step_interrupt_some (f : Facts) (c : Conn Message) (w : Nat) (m : Message) (off : Nat)
     (h : c.cur w = some (m, off)) :
-    step f c (.interrupt w) =
+    step mlen f c (.interrupt w) =
       { c with cur := setCur c.cur w none, lock := if c.lock = some w then none else c.lock,
                failed := c.failed || (decide (off > 0) && f.failOnInterrupt) } := by
   simp [step, h]
 
 /-- Once failed, nothing changes on the wire and the connection stays failed (any facts). -/
-theorem step_failed (f : Facts) (c : Conn) (hf : c.failed = true) (e : Ev) :
-    (step f c e).failed = true ∧ (step f c e).segs = c.segs ∧ (step f c e).done = c.done := by
+theorem step_failed (f : Facts) (c : Conn Message) (hf : c.failed = true) (e : Ev Message) :
+    (step mlen f c e).failed = true ∧ (step mlen f c e).segs = c.segs ∧ (step mlen f c e).done = c.done := by
   cases e with
   | submit w m =>
     cases h : c.cur w with
@@ -165,13 +165,13 @@ theorem step_failed (f : Facts) (c : Conn) (hf : c.failed = true) (e : Ev) :
       obtain ⟨m, off⟩ := p
       rw [step_interrupt_some f c w m off h]; simp [hf]
 
-theorem run_failed (f : Facts) (evs : List Ev) (c : Conn) (hf : c.failed = true) :
-    (run f evs c).failed = true ∧ (run f evs c).segs = c.segs ∧ (run f evs c).done = c.done := by
+theorem run_failed (f : Facts) (evs : List (Ev Message)) (c : Conn Message) (hf : c.failed = true) :
+    (run mlen f evs c).failed = true ∧ (run mlen f evs c).segs = c.segs ∧ (run mlen f evs c).done = c.done := by
   induction evs generalizing c with
   | nil => simp [run, hf]
   | cons e evs ih =>
     obtain ⟨h1, h2, h3⟩ := step_failed f c hf e
-    have := ih (step f c e) h1
+    have := ih (step mlen f c e) h1
     simp only [run, List.foldl_cons] at this ⊢
     rw [this.2.1, this.2.2, h2, h3]; exact ⟨this.1, rfl, rfl⟩
 
@@ -182,15 +182,15 @@ theorem setCur_other (cur : Nat → Option (Message × Nat)) (w w' : Nat) (v) (h
     setCur cur w v w' = cur w' := by
   simp [setCur, h]
 
-def Ev.Wf : Ev → Prop
+def Ev.Wf : Ev Message → Prop
   | .submit _ m => m.WF
   | _ => True
 
 def both : Facts := ⟨true, true⟩
 
 /-- In a failed connection `cur` only loses entries or gains a consistent one. -/
-theorem step_cur_sub (f : Facts) (c : Conn) (e : Ev) (he : e.Wf) (w : Nat) (m : Message) (off : Nat)
-    (hc : (step f c e).cur w = some (m, off)) (hf : c.failed = true) :
+theorem step_cur_sub (f : Facts) (c : Conn Message) (e : Ev Message) (he : e.Wf) (w : Nat) (m : Message) (off : Nat)
+    (hc : (step mlen f c e).cur w = some (m, off)) (hf : c.failed = true) :
     c.cur w = some (m, off) ∨ (m.WF ∧ off < m.toVec.length) := by
   cases e with
   | submit w' m' =>
@@ -222,7 +222,7 @@ theorem step_cur_sub (f : Facts) (c : Conn) (e : Ev) (he : e.Wf) (w : Nat) (m : 
       · subst hw; rw [setCur_same] at hc; cases hc
       · rw [setCur_other _ _ _ _ hw] at hc; exact Or.inl hc
 
-theorem inv_step (c : Conn) (hi : Inv c) (e : Ev) (he : e.Wf) : Inv (step both c e) := by
+theorem inv_step (c : Conn Message) (hi : Inv c) (e : Ev Message) (he : e.Wf) : Inv (step mlen both c e) := by
   by_cases hfail : c.failed = true
   · -- failed: wire and ghost state frozen
     obtain ⟨h1, h2, h3⟩ := step_failed both c hfail e
@@ -410,12 +410,23 @@ theorem inv_step (c : Conn) (hi : Inv c) (e : Ev) (he : e.Wf) : Inv (step both c
               exact ⟨m2, off2, by simp only [setCur_other _ _ _ _ hw]; exact hc2, hs2⟩
           · intro hf; simp only at hf; rw [hfl] at hf; cases hf
 
-theorem inv_run (evs : List Ev) (c : Conn) (hi : Inv c) (he : ∀ e ∈ evs, e.Wf) :
-    Inv (run both evs c) := by
+theorem pat_length (tag len : Nat) : (pat tag len).length = len := by simp [pat]
+
+/-- The driver's on-demand frames are exactly the `MessageBuilder` messages with the pattern body. -/
+theorem lframe_is_message (id : Nat) (notify : Bool) (q : Bytes) (tag blen : Nat) :
+    (LFrame.of id notify q tag blen).bytes = (Builder.mk id notify 0 1 0 q (pat tag blen)).build.toVec ∧
+    (LFrame.of id notify q tag blen).len =
+      (Builder.mk id notify 0 1 0 q (pat tag blen)).build.toVec.length := by
+  constructor
+  · simp [LFrame.bytes, LFrame.of, Builder.build, Message.toVec, Header.patchLengths, pat_length]
+  · simp [LFrame.len, LFrame.of, Builder.build, Message.toVec, pat_length]; omega
+
+theorem inv_run (evs : List (Ev Message)) (c : Conn Message) (hi : Inv c) (he : ∀ e ∈ evs, e.Wf) :
+    Inv (run mlen both evs c) := by
   induction evs generalizing c with
   | nil => exact hi
   | cons e evs ih =>
     simp only [run, List.foldl_cons]
-    exact ih (step both c e) (inv_step c hi e (he e (by simp))) (fun e' h' => he e' (by simp [h']))
+    exact ih (step mlen both c e) (inv_step c hi e (he e (by simp))) (fun e' h' => he e' (by simp [h']))
 
 end Repe.WD
